@@ -23,6 +23,7 @@ All theorems are for every width / version number (32 and 128 are instances), ev
 -/
 import NetaddrVerif.Model.Summarise
 import NetaddrVerif.Lemmas.C05LNet
+import NetaddrVerif.Lemmas.C05LUniq
 namespace NV.C05
 open NV NV.C05L NV.Summ Blk
 
@@ -191,9 +192,46 @@ theorem merge_minimal (xs : List MItem) (hwf : ∀ it ∈ xs, ItemWF it) (u : Na
     (famBlks u (cidrMerge xs)).length ≤ l'.length :=
   canon_minimal _ l' ((merge_canon xs hwf).canon u) hal (fun a => by rw [hden a, merge_den xs hwf u a])
 
+/-- *minimal*, whole mixed IPv4/IPv6 list: no list of host-bit-free networks with the same
+    per-family union is shorter -/
+theorem merge_minimal_total (xs : List MItem) (hwf : ∀ it ∈ xs, ItemWF it)
+    (hver : ∀ it ∈ xs, it.toRange.ver = 4 ∨ it.toRange.ver = 6)
+    (l' : List Net) (hal : ∀ n ∈ l', n.val % 2 ^ (width n.ver - n.plen) = 0)
+    (hden : ∀ u a, den (famBlks u l') a ↔ iden xs u a) :
+    (cidrMerge xs).length ≤ l'.length := by
+  have hv : ∀ n ∈ cidrMerge xs, n.ver = 4 ∨ n.ver = 6 := by
+    intro n hn
+    have : den (famBlks n.ver (cidrMerge xs)) n.val :=
+      ⟨⟨n.val, width n.ver - n.plen⟩, (mem_famBlks _ _ _).2 ⟨n, hn, rfl, rfl⟩, mem_base _⟩
+    obtain ⟨it, hit, hvv, _⟩ := (merge_den xs hwf n.ver n.val).1 this
+    rw [← hvv]; exact hver it hit
+  have hal' : ∀ u, ∀ c ∈ famBlks u l', c.aligned := by
+    intro u c hc
+    obtain ⟨n, hn, hvn, rfl⟩ := (mem_famBlks _ _ _).1 hc
+    have := hal n hn; rw [hvn] at this; exact this
+  have h4 := merge_minimal xs hwf 4 _ (hal' 4) (hden 4)
+  have h6 := merge_minimal xs hwf 6 _ (hal' 6) (hden 6)
+  have := fam_len_eq _ hv
+  have := fam_len_le l'
+  omega
+
+example : ∀ it ∈ [MItem.net 4 ⟨3232235777, 24⟩, MItem.rng 6 5 (2 ^ 128 - 1)],
+    it.toRange.ver = 4 ∨ it.toRange.ver = 6 := by
+  intro it hit
+  simp only [List.mem_cons, List.not_mem_nil, or_false] at hit
+  rcases hit with rfl | rfl <;> simp [MItem.toRange]
+
 /-- a single range is summarised exactly as `IPRange.cidrs()` / `iprange_to_cidrs` do it -/
 theorem merge_single_range (ver lo hi : Nat) :
     cidrMerge [MItem.rng ver lo hi] = rangeCidrs ⟨ver, lo, hi⟩ := by
   simp [cidrMerge, MItem.toRange, mergeSweep, MRange.emit, rangeCidrs]
+
+/-- `iter_unique_ips(*args)`: strictly ascending by (version, address) — hence without
+    duplicates — and exactly the addresses of the inputs -/
+theorem iter_unique_ips_spec (xs : List MItem) (hwf : ∀ it ∈ xs, ItemWF it) :
+    (iterUniqueIps xs).Pairwise AddrLt ∧ ∀ x : Addr, x ∈ iterUniqueIps xs ↔ iden xs x.ver x.val := by
+  have h := flat_addrs (cidrMerge xs) (merge_canon xs hwf)
+    (fun n hn => ⟨(merge_wf xs hwf n hn).2.1, (merge_wf xs hwf n hn).2.2⟩)
+  exact ⟨h.1, fun x => by rw [← merge_den xs hwf]; exact h.2 x⟩
 
 end NV.C05
